@@ -268,7 +268,10 @@ def path_uniformity(SA):
                     if isinstance(a, Expr) and isinstance(b, Expr):
                         if zsub:
                             # where one path established that a quantity vanishes, the two sides need only agree there
-                            a, b = a.expand().subs(zsub), b.expand().subs(zsub)
+                            try:
+                                a, b = a.expand().subs(zsub), b.expand().subs(zsub)
+                            except ZeroDivisionError:
+                                pass  # the vanishing quantity is a divisor on the other path: compared as they are
                         if not a.eq(b):
                             same, why = False, "%s coefficient differs" % nm
                     elif not (a is b or repr(a) == repr(b)):
@@ -282,7 +285,15 @@ def path_uniformity(SA):
                 extra = [d for d in w.r.path if d not in ref.r.path] + [d for d in ref.r.path if d not in w.r.path]
                 # tests the model cannot exploit: on unmodelled values, and quantified ones (any / all over an array: the outcome is
                 # recorded, but no fact about the individual entries follows from it in this domain)
-                guessed = [d for d in extra if d[0].startswith("unknown test") or d[0].startswith("any:") or d[0].startswith("all:")]
+                # a quantified test (any / all over an array) says something about the generic entry in one direction only, and the
+                # comparison below can use such a fact only when it is "the entry is zero" (it substitutes zeros): a pair of
+                # paths that differ by any other quantified outcome cannot be compared in this domain
+                def usable(d):
+                    return (d[0].startswith("any:!=0(") and not d[1]) or (d[0].startswith("all:==0(") and d[1])
+                quant = [d for d in extra if d[0].startswith("any:") or d[0].startswith("all:")]
+                guessed = [d for d in extra if d[0].startswith("unknown test")]
+                if quant and not any(usable(d) for d in quant):
+                    guessed = guessed + quant
                 verdict = same
                 if not same and guessed:
                     # the two paths differ by a test on a value the interpreter does not model (it explored both outcomes
